@@ -80,12 +80,13 @@ def run(ctx):
             ctx.check(len(cm) == 1 and len(some) == 1, "R14.2", b.loc(), f"{who}|some-cmp", f"{who} must be Some(self.cmp(other))", instance=f"{who} = Some(cmp)")
             continue
         if b.name in ("eq", "cmp", "hash"):
-            if is_dk:
-                # DoubleKey may delegate to <f64 as DoubleOps>::{eq,cmp,hash} (checked here as well): look through that call
-                b = inline.expand(c, b, depth=1, pred=lambda cb, nm=b.name: cb.trait == DOPS and tystr(cb.self_ty or {}) == "f64" and cb.name == nm)
+            nm0 = b.name
+            # DoubleKey may delegate to <f64 as DoubleOps>::{eq,cmp,hash} (checked here as well), and both may share crate-private
+            # helper functions: looked through
+            b = inline.expand(c, b, depth=2, pred=lambda cb, nm=b.name: (cb.trait == DOPS and tystr(cb.self_ty or {}) == "f64" and cb.name == nm) or (cb.kind == "fn" and cb.d.get("vis") != "pub"))
             wraps = [s for _, _, s in b.stmts() if s["r"].get("agg") == "adt" and s["r"]["adt"] == OF]
-            calls = [t for _, t in b.calls() if t["call"]["name"] == b.name and t["call"].get("substs") and ty_adt(strip_refs(t["call"]["substs"][0])) == OF]
-            need = 1 if b.name == "hash" else 2
+            calls = [t for _, t in b.calls() if t["call"]["name"] == nm0 and t["call"].get("substs") and ty_adt(strip_refs(t["call"]["substs"][0])) == OF]
+            need = 1 if nm0 == "hash" else 2
             ok = len(wraps) == need and len(calls) == 1
             canon.append((who, ok))
             ctx.check(ok, "R14.2", b.loc(), f"{who}|canonical", f"{who} must wrap its operand(s) in OrderedFloat and use OrderedFloat's {b.name} (wraps {len(wraps)}, calls {len(calls)})", instance=f"{who} via OrderedFloat")
@@ -231,7 +232,7 @@ def run(ctx):
                         continue
                     ctx.check(under, "R14.5", where, f"{fn['name']}|type-template|guard", f"{fn['name']}: the type-level educe is emitted under {q['conds']}, expected has_double / is_double", instance=f"{fn['name']}: type educe under has_double")
         ctx.floor("R14.5", "educe field templates", field_t, 1)
-        ctx.floor("R14.5", "educe type templates", type_t, 3)
+        ctx.floor("R14.5", "educe type templates", type_t, 1)
     # ---------------- R14.6 instance
     ct = F.crate("conjure_test")
     ntypes = 0
